@@ -219,6 +219,19 @@ def load_known():
     return json.load(open(p)).get("findings", [])
 
 
+def kf_matches(k, j):
+    if k.get("harness") != j.harness:
+        return False
+    if not all(str(j.args.get(x)) == str(v) for x, v in k.get("args", {}).items()):
+        return False
+    if not all(d in j.defines for d in k.get("defines", [])):
+        return False
+    for x, sub in k.get("args_contain", {}).items():
+        if sub not in str(j.args.get(x, "")):
+            return False
+    return True
+
+
 def functions_encoded(exe):
     r = sh("nm -C --defined-only %s | grep -E ' [TtWw] ' | grep -E 'ikos::|crab::' | sed -E 's/^[0-9a-f]+ . //' | grep -v '^sx' | sort -u" % exe, shell=True)
     names = [l for l in r.stdout.splitlines() if l]
@@ -276,7 +289,7 @@ def run_property(pid, tier, seed, spec, workdir, ev_path, a, t0):
     known = [k for k in load_known() if k.get("property") == pid and k.get("status") == "open"]
     # attach exclusions of open known findings to the jobs they concern
     for j in jobs:
-        ks = [k["class"] for k in known if k.get("harness") == j.harness and all(str(j.args.get(x)) == str(v) for x, v in k.get("args", {}).items())]
+        ks = [k["class"] for k in known if kf_matches(k, j)]
         if ks and not isinstance(j, props.E1Job):
             j.known = tuple(ks)
     e2 = [j for j in jobs if not isinstance(j, props.E1Job)]
@@ -407,22 +420,23 @@ def run_property(pid, tier, seed, spec, workdir, ev_path, a, t0):
                        "how": "python3 /verif/run.py --replay " + rp, "note": "solver counterexample reproduced on the native build (real z_number/GMP)"}, open(rp, "w"), indent=1)
             violations.append((j, rp, "%s fails for %s" % (v["label"], json.dumps(v["model"]))))
         per_job.append(agg)
-    # ---- known findings: confirm that each still reproduces (class-restricted run) ----
+    # ---- known findings: confirm that each still reproduces (same job without the exclusion) ----
     for k in known:
         kj = [j for j in e2 if k["class"] in j.known]
         if not kj:
             continue
-        j = kj[0]
-        jj = Job(j.harness, dict(j.args, only=k["class"]), j.defines, j.budget, 1, 0, witnesses=0)
-        r = run_sym(build, jj)
-        res = r["res"]
         ok = False
-        if res and res.get("violations"):
-            v = res["violations"][0]
-            cres, cmd, mf = replay_conc(build, jj, v["model"], workdir, "kf-" + sha(k["class"]))
-            if cres is not None and v["label"] in cres.get("failed", []):
-                ok = True
-                msgs.append("KNOWN-FINDING: property=%s %s (e.g. %s)" % (pid, k["what"], json.dumps(v["model"])))
+        for j in kj[:3]:
+            jj = Job(j.harness, j.args, j.defines, j.budget, 1, 0, witnesses=0)
+            r = run_sym(build, jj)
+            res = r["res"]
+            if res and res.get("violations"):
+                v = res["violations"][0]
+                cres, cmd, mf = replay_conc(build, jj, v["model"], workdir, "kf-" + sha(k["class"]))
+                if cres is not None and v["label"] in cres.get("failed", []):
+                    ok = True
+                    msgs.append("KNOWN-FINDING: property=%s %s [%s; e.g. %s with %s]" % (pid, k["what"], k["id"], jj.name, json.dumps(v["model"])))
+                    break
         if not ok:
             msgs.append("note: known finding %s no longer reproduces" % k["id"])
     # ---- verdict + evidence ----
